@@ -318,6 +318,7 @@ func run(sc scenario) (out trialOut) {
 	cancelIdx, returnIdx, firstEnter := -1, -1, -1
 	entersAfterCancel, fallbackAfterCancel := 0, 0
 	exits, scheduled := 0, 0
+	exitsBeforeCancel, scheduledBeforeCancel := 0, 0
 	for i, e := range l {
 		switch e.Kind {
 		case "cancelled":
@@ -336,9 +337,15 @@ func run(sc scenario) (out trialOut) {
 		case "exit":
 			if returnIdx == -1 {
 				exits++
+				if cancelIdx == -1 {
+					exitsBeforeCancel++
+				}
 			}
 		case "scheduled":
 			scheduled++
+			if cancelIdx == -1 {
+				scheduledBeforeCancel++
+			}
 		case "fallback":
 			if cancelIdx != -1 {
 				fallbackAfterCancel++
@@ -350,15 +357,18 @@ func run(sc scenario) (out trialOut) {
 	cancelledBeforeReturn := cancelIdx != -1 && (returnIdx == -1 || cancelIdx < returnIdx)
 	src := sourceErr(sc.Source)
 	// the natural result, if the execution could complete on its own before/without the cancellation
+	// A result "the execution had already completed with" is one whose deciding attempt returned before the cancellation
+	// took effect: an attempt that returns afterwards is followed by the policy's cancellation check. (The marker is
+	// logged no earlier than the cancellation, so this only ever accepts more.)
+	_ = exits
+	_ = scheduled
 	naturalOK := func() bool {
 		switch {
-		case sc.SucceedAt != 0 && exits >= sc.SucceedAt:
-			if isHedgeShape {
-				return got.v == okVal && got.err == nil
-			}
+		case sc.SucceedAt != 0 && exitsBeforeCancel >= sc.SucceedAt:
 			return got.v == okVal && got.err == nil
 		}
-		if sc.MaxRetries >= 0 && scheduled >= sc.MaxRetries && !waitsInPolicy {
+		decided := exitsBeforeCancel >= sc.MaxRetries+1 || (sc.Shape == "retry(breaker)" && scheduledBeforeCancel >= sc.MaxRetries)
+		if sc.MaxRetries >= 0 && scheduledBeforeCancel >= sc.MaxRetries && decided && !waitsInPolicy {
 			var ex retrypolicy.ExceededError
 			if errors.As(got.err, &ex) && (errors.Is(ex.LastError, errX) || (sc.Shape == "retry(breaker)" && errors.Is(ex.LastError, circuitbreaker.ErrOpen))) {
 				return true
@@ -463,7 +473,7 @@ func genScenario(t *rapid.T) scenario {
 		}
 	}
 	sc.DelayHour = rapid.Bool().Draw(t, "delayHour")
-	sc.MaxRetries = rapid.SampledFrom([]int{-1, -1, 3, 50}).Draw(t, "maxRetries")
+	sc.MaxRetries = rapid.SampledFrom([]int{-1, -1, 0, 1, 3, 50}).Draw(t, "maxRetries")
 	if sc.Shape == "fallback(retry)" && sc.Source != "ctx-deadline" && rapid.IntRange(0, 3).Draw(t, "inFallback") == 0 {
 		// the retries are exhausted, the fallback starts (legitimately), and the cancellation lands inside it
 		sc.Point, sc.MaxRetries, sc.DelayHour, sc.BlockAtK = "in-fallback", rapid.IntRange(0, 3).Draw(t, "fewRetries"), false, false
